@@ -1,4 +1,5 @@
 """C20 - traversals visit exactly the reachable gates in a valid order."""
+import itertools
 import random
 
 from .. import gen
@@ -80,7 +81,9 @@ def sources(tier, seed, ctx):
     return srcs
 
 
-def _trav(c, mode, inverse, start, hooks, topo):
+def _trav(c, mode, inverse, start, hooks, topo, interleave=None):
+    """interleave: 'lockstep' - another traversal of the SAME circuit is consumed one step per step of this one;
+    'nested' - the exit / enter hook runs a complete traversal of its own.  Traversals are generators: several may be alive."""
     ev = []
     kw = {}
     if 'enter' in hooks:
@@ -106,8 +109,27 @@ def _trav(c, mode, inverse, start, hooks, topo):
             pass
         else:
             kw['topsort_unvisited'] = topo
+        other = None
+        if interleave == 'lockstep':
+            other = (c.bfs if mode == 'DFS' else c.dfs)()
+        if interleave == 'nested':
+            inner = kw.get('on_enter_hook')
+
+            def nested_enter(g, st, _inner=inner):
+                if _inner is not None:
+                    _inner(g, st)
+                for _ in itertools.islice(c.bfs([g.label]), 4 * len(c.gates) + 4):     # a complete traversal of its own (bounded)
+                    pass
+            kw['on_enter_hook'] = nested_enter
+        steps = 0
         for g in fn(start, **kw):
             ev.append({'e': 'yield', 'l': g.label})
+            if other is not None:
+                next(other, None)
+            steps += 1
+            if steps > 4 * len(c.gates) + 4:
+                exc = 'traversal-does-not-terminate'
+                break
     except Exception as e:
         exc = type(e).__name__
     return ev, exc
@@ -257,7 +279,7 @@ def record(src):
         if r.random() < 0.25:
             hooks = set(r.sample(sorted(hooks), r.randint(0, len(hooks))))
         topo = r.random() < 0.5
-        ev, exc = _trav(c, mode, inv, start_arg, hooks, topo)
+        ev, exc = _trav(c, mode, inv, start_arg, hooks, topo, interleave={3: 'lockstep', 5: 'nested'}.get(src.get('ts', 0) % 7))
         out.append({'kind': 'trav', 'c': proj, 'mode': mode, 'inverse': inv, 'start': start, 'topo': topo,
                     'hooks': sorted(hooks), 'ev': [e for e in ev if e['e'] != 'discover'], 'exc': exc, 'src': src})
     if src.get('dense') or src.get('past'):
